@@ -17,3 +17,7 @@ func housekeeping(t *oidc.TraefikOidc) bool { t.VerifHousekeeping(); return true
 func endpointsOf(t *oidc.TraefikOidc) map[string]string { return t.VerifEndpoints() }
 
 func deriveBlockKeyOf(key string) []byte { return oidc.VerifDeriveBlockKey(key) }
+
+func expireKeySet(t *oidc.TraefikOidc) bool { return t.VerifExpireKeySet() }
+
+func onKeyConversion(fn func(kty string)) func() { return oidc.VerifOnKeyConversion(fn) }
